@@ -267,6 +267,9 @@ def gen_curve_case(r, nan_ok=False, max_members=8, depth=4):
         ops.append(f"cv.add id={cid} kind=function type={ty} members={','.join(members) if members else '-'}")
         curves.append(cid)
     now = r.range(1, 10**15)
+    # overlapping evaluations only for well-formed cases whose curves are pure functions of the sensor state
+    pair_ok = not any(v[0] == "pid" for v in info.values()) and all("missing" not in o and "bogus" not in o and "members=-" not in o
+                                                                      and "steps=-" not in o for o in ops)
     for _ in range(r.range(1, 12)):
         for s in sens:
             # choose a leaf using this sensor to bias readings to its boundaries
@@ -282,7 +285,11 @@ def gen_curve_case(r, nan_ok=False, max_members=8, depth=4):
                 avg = float("nan")
             ops.append(f"cv.sensor id={s} avg={fx(avg)} val={vtok}")
         now += r.pick([0, 1, 200_000_000, 2_000_000_000, r.range(0, 10**10)])
-        ops.append(f"cv.eval id={r.pick(curves)} now={now}")
+        cid = r.pick(curves)
+        ops.append(f"cv.eval id={cid} now={now}")
+        if pair_ok and r.chance(0.5):
+            # the same curve object evaluated by two controllers at once (the first suspended in the n-th sensor read)
+            ops.append(f"cv.evalpair id={cid} gate={r.pick(sens)} n={r.range(1, 4)} now={now}")
     return ops
 
 
